@@ -72,3 +72,9 @@ check('C12', 'exploration',
       'and every unfaulted skeleton through every entry form (no false rejection, reference value). Oracle: the library\'s own error type with a message naming the element, before any number.',
       'Placement rules are judged at the BIOGEME entry forms (expression level: only "no number" for draws / integration variables); message clarity approximated by "names the element"; the engine\'s sticky error is a recorded finding and forces fresh processes for expected engine errors.',
       'bounded exhaustive fault planting and missing-data cell placement on the real library/engine', 'DESIGN.md section 4, C12')
+check('C19', 'exploration',
+      'Every set partition of 4-6 alternatives into <= 3 strata x every size vector x every chosen alternative x every ordered subset the sampler can return (pandas DataFrame.sample replaced by an enumerating seam that also validates each request) is executed on the real ChoiceSetsGeneration. '
+      'Each generated row is checked against an independent reference of the protocol (chosen first, no duplicates, per-stratum counts, ln(k/n) corrections, n/k MEV weights, own-attribute combined variables); each generated table\'s log likelihood (logit; nested and cross-nested with a second sample) '
+      'through BIOGEME.calculate_likelihood at 3 parameter points equals the reference corrected model and, under complete sampling, the textbook full-choice-set model.',
+      'True partitions and unique ids only; (first answer, second answer) pairs are the full product only up to 48 per context, otherwise a covering diagonal; rows of one table treated as independent; sampled nested/CNL cases needing log(0) excluded and counted.',
+      'bounded exhaustive enumeration of partitions x sample sizes x choices x every answer of the owned sampler vs a protocol / likelihood reference', 'DESIGN.md section 4, C19')
